@@ -22,6 +22,20 @@ def gen_cases(ctx):
                     cs2 = list(cs)
                     rng.shuffle(cs2)
                     cases.append(mk_case(kind, rand_params(rng, kind, special=(rng.random() < 0.1)), n, ts, cs2, rand_vec(rng, n, style), thr))
+    # special-value sweep: every special angle (multiples of pi/2, 2pi, 4pi, tiny, huge, -0.0) in every parameter
+    # position of every parametrised gate, uncontrolled and controlled, both paths
+    for kind in NPARAMS:
+        np_ = NPARAMS[kind]
+        for pos in range(np_):
+            for ang in SPECIAL_ANGLES:
+                for n in (2, 3):
+                    pls = placements(n, kind)
+                    unc = [p for p in pls if not p[1]]
+                    con = [p for p in pls if p[1]]
+                    for (ts, cs) in ([rng.choice(unc)] if unc else []) + ([rng.choice(con)] if con else []):
+                        params = rand_params(rng, kind)
+                        params[pos] = float2bits(ang)
+                        cases.append(mk_case(kind, params, n, ts, list(cs), rand_vec(rng, n, "generic"), rng.choice([10, 1])))
     # sampled: 5..8 qubits both paths, real threshold 9 vs 10 without override
     big = [(5, 40), (6, 30), (7, 20), (8, 12)] if not ctx.thorough() else [(5, 200), (6, 120), (7, 80), (8, 60)]
     for n, cnt in big:
@@ -77,16 +91,7 @@ def judge(ctx, cases, results, codes):
     return stats
 
 def run_cases(ctx, cases):
-    results = run_harness(cases, nproc=8)
-    terms, idx = [], []
-    for i, (c, r) in enumerate(zip(cases, results)):
-        if r["r"] in ("ok", "err", "panic"):
-            terms.append(coq_gate_term(c, r)); idx.append(i)
-    outs = coq_eval(ctx, GATE_IMPORTS, terms)
-    codes = [None] * len(cases)
-    for i, o in zip(idx, outs):
-        codes[i] = parseN(o)
-    return results, codes
+    return run_gate_cases(ctx, cases)
 
 def run(ctx):
     proof_ok = proof_check(ctx)
